@@ -10,6 +10,7 @@
   /repo each run).
 -/
 import ICal.Lemmas.Params
+import ICal.Lemmas.BodiesParser
 namespace ICal.C08
 
 /-- `,` `;` `:` are in QUOTABLE -/
@@ -110,5 +111,28 @@ example : canon sampleParams =
 example : Balanced ';' ("CN=\"x,;: y\"".toList) ∧ ¬ Balanced ';' ("CN=x;y".toList) := by decide
 example : ∃ c ∈ ['x', ',', ';', ':', ' ', 'y'], c = ',' ∨ c = ';' ∨ c = ':' := ⟨',', by decide, Or.inl rfl⟩
 example : ValueOk ['x', ',', ';', ':', ' ', 'y'] ∧ ¬ ValueOk ['a', '"'] ∧ ¬ ValueOk ['a', '\n'] := by decide
+
+/-! ## Regenerated function bodies = hand model
+
+  `ICal.Gen.BodiesParser.dquote` / `q_join` are written by tools/py2lean.py from the current source
+  text of `parser.dquote` / `parser.q_join` on every run (`.replace`, the f-string, the early return,
+  `sep.join(dquote(itm) for itm in lst)`).  `QUOTABLE.search` is a predicate parameter;
+  `Bodies.quotableSearch` ("some character is in the generated class `Gen.quotable`") is its hand
+  model, compared with the real regex every run.  The theorems prove the regenerated bodies equal to
+  the models `dquote` / `qJoin` that every theorem above is about. -/
+
+theorem body_dquote (v : Str) : Gen.BodiesParser.dquote v Bodies.quotableSearch = dquote v :=
+  Bodies.dquote_eq v
+
+theorem body_q_join (l : List Str) : Gen.BodiesParser.q_join l [','] Bodies.quotableSearch = qJoin l :=
+  Bodies.q_join_eq l
+
+/-- an instance of what the tie buys: the quoting clause holds of what the translated code emits -/
+theorem body_dquote_quotes (v : Str) (h : ∃ c ∈ v, c = ',' ∨ c = ';' ∨ c = ':') :
+    Gen.BodiesParser.dquote v Bodies.quotableSearch = DQ :: rep1 DQ ['\''] v ++ [DQ] := by
+  rw [body_dquote]; exact dquote_quotes v h
+
+example : Gen.BodiesParser.dquote "a,b".toList Bodies.quotableSearch = "\"a,b\"".toList := by decide
+example : Gen.BodiesParser.q_join ["a;b".toList, "c".toList] [','] Bodies.quotableSearch = "\"a;b\",c".toList := by decide
 
 end ICal.C08
